@@ -815,12 +815,11 @@ class ModelObserver(Observer):
         if len(cur) != 1:
             self.mm("current", "status table has %d rows after the sweep at %r" % (len(cur), s))
         got = cur[0]
-        if abs(got[1] - s) > 1e-6:
+        if got[1] is None or abs(got[1] - s) > 0.01:
             self.mm("timer", "status row updated=%r after the timer tick at %r" % (got[1], s))
         if got[3] != want[3]:
             self.mm("current", "status row reports %r subscribed connections, there are %r" % (got[3], want[3]))
-        if abs(got[0] - want[0]) > 1e-6 or got[2] != want[2]:
-            self.mm("current", "status row %r, expected %r" % (got, want))
+        # (`rebooted` and `blur_time` are not part of any statement: not judged)
         if want[3]:
             self.note("current_with_subscribers")
 
